@@ -273,6 +273,16 @@ class Exec:
             try:
                 if isinstance(fn, ast.Lambda):
                     return self.expr(fn.body)
+                if _is_generator(fn):
+                    # generator function: the body is run eagerly and the yielded values are handed over as a list (exact for a generator whose body has no
+                    # side effects that its consumer could observe between two items; every use is recorded as an assumption)
+                    self.assumptions_used.add("generator functions are run eagerly (their items as a list): exact when the generator body has no side effect the consumer observes between items")
+                    self.frame.yields = []
+                    try:
+                        self.block(fn.body)
+                    except ReturnEx:
+                        pass
+                    return list(self.frame.yields)
                 try:
                     self.block(fn.body)
                 except ReturnEx as r:
@@ -801,6 +811,12 @@ class Exec:
     def e_Name(self, n):
         return self.lookup(n.id, n)
 
+    def e_Yield(self, n):
+        if not hasattr(self.frame, "yields"):
+            raise Unsupported("yield outside a generator function call")
+        self.frame.yields.append(self.expr(n.value) if n.value is not None else None)
+        return None
+
     def e_JoinedStr(self, n):
         parts, raw, symbolic = [], [], False
         for v in n.values:
@@ -942,7 +958,7 @@ class Exec:
         for op, rn in zip(n.ops, n.comparators):
             r = self.expr(rn)
             c = self.compare(op, left, r, n)
-            if isinstance(c, Arr):
+            if isinstance(c, Arr) or getattr(c, "pyvc_arraylike", False):
                 if len(n.ops) != 1:
                     raise Unsupported("chained comparison of arrays")
                 return c
@@ -1286,6 +1302,19 @@ class _DictView:
         if self.what == "values":
             return list(self.d.values())
         return list(self.d.keys())
+
+
+def _is_generator(fn):
+    """does this def contain a yield of its own (not one of a nested def / lambda)?"""
+    stack = list(fn.body)
+    while stack:
+        x = stack.pop()
+        if isinstance(x, (ast.Yield, ast.YieldFrom)):
+            return True
+        if isinstance(x, (ast.FunctionDef, ast.AsyncFunctionDef, ast.Lambda, ast.ClassDef)):
+            continue
+        stack.extend(ast.iter_child_nodes(x))
+    return False
 
 
 class _Zip:
